@@ -5,7 +5,7 @@ package vanguard
 // backend writes split / byte-by-byte / all-in-one / with empty writes and flushes) - must hand the
 // same bytes to the backend and the same response to the client, and both must match the reference.
 func hC08Seg() {
-	cfg, ok := pickAdapterCfg()
+	cfg, ok := pickAdapterCfgNarrow()
 	if !ok {
 		return
 	}
@@ -15,10 +15,16 @@ func hC08Seg() {
 	target, codec, comp := refNegotiate(cfg)
 	unaryKind := cfg.kind == fkUnary
 	targetEnveloped := target == ProtocolGRPC || target == ProtocolGRPCWeb || (target == ProtocolConnect && !unaryKind)
-	varyReq, varyResp := true, true
-	if verifTier() == 0 {
-		varyReq = verifChoose("direction", 2) == 0
-		varyResp = !varyReq
+	// one direction is varied at a time (the two directions do not share buffers within an RPC)
+	varyReq := verifChoose("direction", 2) == 0
+	varyResp := !varyReq
+	if verifTier() == 1 {
+		// deep messages on the varied side only (see pickPipeCfg: thorough slices)
+		if varyReq {
+			pipeThoroughSlice = sliceDeepReq
+		} else {
+			pipeThoroughSlice = sliceDeepResp
+		}
 	}
 	reqMsgs := []wireMsg{{abstract: []byte{'q'}}}
 	if varyReq {
@@ -34,13 +40,18 @@ func hC08Seg() {
 	var chunk, bufSize, mode, splitAt int
 	var eofWithData bool
 	if verifTier() == 1 {
-		chunk = verifChoose("chunk", 3) + 1
-		bufSize = []int{1, 2, 3, 4, 5, 7}[verifChoose("bufsize", 6)]
-		mode = verifChoose("writeMode", 5)
-		if mode == wmSplit {
-			splitAt = verifChoose("splitAt", 6) + 1
+		// thorough: every combination of the dimensions that act on the varied side
+		chunk, bufSize, mode = 4096, 16, wmFrame
+		if varyReq {
+			chunk = verifChoose("chunk", 3) + 1
+			bufSize = []int{1, 2, 3, 5}[verifChoose("bufsize", 4)]
+			eofWithData = verifChoose("eofWithData", 2) == 1
+		} else {
+			mode = verifChoose("writeMode", 5)
+			if mode == wmSplit {
+				splitAt = verifChoose("splitAt", 6) + 1
+			}
 		}
-		eofWithData = verifChoose("eofWithData", 2) == 1
 	} else {
 		switch verifChoose("profile", 6) {
 		case 0:
@@ -103,7 +114,7 @@ func hC08Seg() {
 // 3, 5 or 9 bytes, optionally re-encoded by a bulky codec; whether the RPC is accepted or refused with
 // resource_exhausted must not depend on how the same bytes are cut into Reads and Writes.
 func hC08Limit() {
-	cfg, ok := pickAdapterCfg()
+	cfg, ok := pickAdapterCfgNarrow()
 	if !ok {
 		return
 	}
